@@ -121,7 +121,7 @@ def run(tier):
       'geo-ratio tolerance, plus general search cases; for every case count_max_designs(), the listings of the two '
       'generators (as sets of sets) and a brute force over all 3^n assignments are compared, and the count, size ranges '
       'and listings are compared with the model. non-trivial: at least two admitted geos',
-      want=('components', 'exhaustive'), extra_cases=class_vector_cases)
+      want=('components', 'exhaustive'), extra_cases=class_vector_cases, gen_targets=searchfam.GEN_TARGETS_EXH)
 
 
 def replay(data):
